@@ -27,6 +27,7 @@ def cmd_check(args):
     pid = args.pid.upper()
     tier = args.tier or os.environ.get('VERIF_TIER') or 'quick'
     seed = int(os.environ.get('VERIF_SEED', '0') or 0)
+    os.environ['VF_TIER'] = tier
     mod = load(pid)
     t0 = time.time()
     report = mod.run(tier, seed)
